@@ -847,6 +847,70 @@ def gen_statusline() -> str:
     return "\n".join(txt)
 
 
+# ---------------------------------------------------------------- SQL tables (C16)
+
+def gen_sql() -> str:
+    m = parse_file("core/sql.py")
+    h = parse_file("cli/sqlite3.py")
+    ro = sorted(set(table(m, "_READONLY_KEYWORDS", "_READONLY_KEYWORDS")))
+    wr = sorted(set(table(m, "_WRITE_KEYWORDS", "_WRITE_KEYWORDS")))
+    sw = sorted(set(table(h, "_SQLITE_WRITE", "_SQLITE_WRITE")))
+    pat = module_assign(m, "_QUOTED_PATTERN")
+    pat_src = pat.args[0].value if isinstance(pat, ast.Call) and pat.args and isinstance(pat.args[0], ast.Constant) else None
+    if pat_src is None:
+        MISSING.append("_QUOTED_PATTERN")
+        pat_src = ""
+    # the alternatives, comments and layout removed (re.VERBOSE)
+    alts = []
+    for line in pat_src.split("\n"):
+        line = line.split("  #")[0].strip()
+        if line.startswith("|"):
+            line = line[1:].strip()
+        if line:
+            alts.append(line)
+    tuples = []
+    f = find_func(h, "classify")
+    if f is not None:
+        for n in ast.walk(f):
+            if isinstance(n, ast.Compare) and len(n.ops) == 1 and isinstance(n.ops[0], ast.In) and isinstance(n.comparators[0], ast.Tuple):
+                xs = const_strs(n.comparators[0])
+                if xs is not None:
+                    tuples.append((n.lineno, xs))
+    tuples = [xs for _, xs in sorted(tuples)]
+    if len(tuples) != 3:
+        MISSING.append("sqlite3 option tuples")
+        tuples = [[], [], []]
+    # characters outside ASCII whose upper() is pure ASCII and that `\w` accepts (they can spell a keyword)
+    ups = []
+    for cp in range(128, 0x110000):
+        c = chr(cp)
+        if 0xD800 <= cp <= 0xDFFF:
+            continue
+        u = c.upper()
+        if u.isascii() and (c.isalnum() or c == "_"):
+            ups.append((cp, u))
+    txt = [
+        "-- GENERATED by harness/gen_tables.py from core/sql.py, cli/sqlite3.py and the running CPython's str.upper. Do not edit.",
+        "namespace Dippy.Generated.Sql",
+        "",
+        "def readonlyKeywords : List String := " + lean_list(ro),
+        "def writeKeywords : List String := " + lean_list(wr),
+        "def sqliteWrite : List String := " + lean_list(sw),
+        "/-- the alternatives of `_QUOTED_PATTERN`, in order -/",
+        "def quotedAlternatives : List String := " + lean_list(alts, per_line=1),
+        "/-- sqlite3 classify: the help tuple, the no-argument options, the one-argument options -/",
+        "def sqliteHelp : List String := " + lean_list(tuples[0]),
+        "def sqliteNoArg : List String := " + lean_list(tuples[1]),
+        "def sqliteOneArg : List String := " + lean_list(tuples[2]),
+        "/-- non-ASCII word characters whose `.upper()` is ASCII (code point, upper-cased text) -/",
+        "def upperToAscii : List (Nat × String) := [" + ", ".join("(%d, %s)" % (cp, lean_str(u)) for cp, u in ups) + "]",
+        "",
+        "end Dippy.Generated.Sql",
+        "",
+    ]
+    return "\n".join(txt)
+
+
 def main() -> int:
     changed = []
     files = {
@@ -857,6 +921,7 @@ def main() -> int:
         "Handlers.lean": gen_handlers(),
         "State.lean": gen_state(),
         "Statusline.lean": gen_statusline(),
+        "Sql.lean": gen_sql(),
     }
     miss = (
         "-- GENERATED. Tables the translator could not find where it expected them.\n"
